@@ -490,11 +490,6 @@ impl<'a> Query<'a> {
         }
         index
     }
-    /// See [`Self::index_of`] and [`Self::iterate_to_first`].
-    fn find_first(&self, name: &str) -> Result<usize, usize> {
-        let index = self.index_of(name)?;
-        Ok(self.iterate_to_first(name, index))
-    }
 }
 impl Display for Query<'_> {
     fn fmt(&self, f: &mut Formatter<'_>) -> fmt::Result {
@@ -527,62 +522,44 @@ impl<'a> QueryPairIter<'a> {
             name,
         }
     }
-    fn ensure_pos(&mut self) {
-        if self.pos.is_none() {
-            self.pos = Some(self.back_pos.map_or_else(
-                || self.query.find_first(self.name).unwrap_or(usize::MAX),
-                |last| self.query.iterate_to_first(self.name, last),
-            ));
+    /// Finds the range of pairs with our name, the first time it's needed.
+    /// `pos` is the next pair from the front, `back_pos` is one past the next pair from the back.
+    fn ensure_bounds(&mut self) -> (usize, usize) {
+        if self.pos.is_none() || self.back_pos.is_none() {
+            let (first, end) = match self.query.index_of(self.name) {
+                Ok(index) => (
+                    self.query.iterate_to_first(self.name, index),
+                    self.query.iterate_to_last(self.name, index),
+                ),
+                Err(_) => (0, 0),
+            };
+            self.pos.get_or_insert(first);
+            self.back_pos.get_or_insert(end);
         }
-    }
-    fn ensure_back_pos(&mut self) {
-        if self.back_pos.is_none() {
-            self.pos = Some(self.pos.map_or_else(
-                || {
-                    self.query
-                        .index_of(self.name)
-                        .map(|index| self.query.iterate_to_last(self.name, index))
-                        .unwrap_or(usize::MAX)
-                },
-                |first| self.query.iterate_to_last(self.name, first),
-            ));
-        }
+        (self.pos.unwrap_or(0), self.back_pos.unwrap_or(0))
     }
 }
 impl<'a> Iterator for QueryPairIter<'a> {
     type Item = &'a QueryPair<'a>;
     fn next(&mut self) -> Option<Self::Item> {
-        self.ensure_pos();
-        if Some(self.pos.unwrap()) == self.back_pos {
+        let (pos, end) = self.ensure_bounds();
+        if pos >= end {
             return None;
         }
-        self.query.pairs.get(self.pos.unwrap()).and_then(|current| {
-            if current.name() == self.name {
-                *self.pos.as_mut().unwrap() += 1;
-                Some(current)
-            } else {
-                None
-            }
-        })
+        let current = self.query.pairs.get(pos)?;
+        self.pos = Some(pos + 1);
+        Some(current)
     }
 }
 impl DoubleEndedIterator for QueryPairIter<'_> {
     fn next_back(&mut self) -> Option<Self::Item> {
-        self.ensure_back_pos();
-        if self.pos == Some(self.back_pos.unwrap()) {
+        let (pos, end) = self.ensure_bounds();
+        if pos >= end {
             return None;
         }
-        self.query
-            .pairs
-            .get(self.back_pos.unwrap())
-            .and_then(|current| {
-                if current.name() == self.name {
-                    *self.back_pos.as_mut().unwrap() -= 1;
-                    Some(current)
-                } else {
-                    None
-                }
-            })
+        let current = self.query.pairs.get(end - 1)?;
+        self.back_pos = Some(end - 1);
+        Some(current)
     }
 }
 
